@@ -50,6 +50,8 @@ static long sum40(void *p, long a1, long a2, long a3, long a4, long a5, long a6,
                   long a33, long a34, long a35, long a36, long a37, long a38, long a39) {
   return (p != 0) + a1 + 2 * a2 + a3 + a4 + a5 + a6 + 7 * a7 + a8 + a9 + a10 + a11 + a12 + a13 + a14 + a15 + a16 + a17 + a18 + a19 + 20 * a20 + a21 + a22 + a23 + a24 + a25 + a26 + a27 + a28 + a29 +
          a30 + a31 + a32 + a33 + a34 + a35 + a36 + a37 + 38 * a38 + 39 * a39; }
+static long many7(long a, long b, long c, long d, long e, long f, long g, long double x, double y, struct S40 s) { return a + g + s.a[4] + (long)x + (long)y; }
+static long many9(long a, long b, long c, long d, long e, long f, long g, long h, long i, long double x, struct SL s, long double z) { return a + i + (long)x + s.b + (long)z; }
 static void chk(long id, long double ld, double d, long i) { OUT(id, &ld, 10); OUT(id, &d, 8); OUTV(id, i); }
 '''
 
@@ -86,6 +88,8 @@ def forms_for(cn, t):
     F.append(('stmt-expr-discard', '({ x; }); ({ ret_%s(); });' % t))
     F.append(('stmt-expr-used', 'y = ({ z = x; x; });'))
     F.append(('call-many-args', 'many(1, 2, 3, 4, 5, 6, 7, 8, 9.5L, 10.5, ret_S40()); k = many(1, 2, 3, 4, 5, 6, 7, 8, 1.0L, 2.0, s40) > 0;'))
+    # a 16-byte-aligned stack argument behind an odd number of stack eightbytes needs 8 bytes of padding that must be released after the call
+    F.append(('call-padded-stack-args', 'many7(1, 2, 3, 4, 5, 6, 7, 9.5L, 10.5, ret_S40()); k = (many7(1, 2, 3, 4, 5, 6, 7, 1.5L, 2.0, s40) + many9(1, 2, 3, 4, 5, 6, 7, 8, 9, 2.5L, ret_SL(), 3.5L)) == 41;'))
     F.append(('alloca-mixed', 'if (i < 40) { char *q = alloca(24); q[0] = 1; x; ret_%s(); gacc = q[0]; }' % t))
     # alloca() evaluated while 300 bytes of struct argument / 34 stack arguments are already pushed: the pending temporaries must move with the stack pointer
     F.append(('alloca-under-pending-args', 'if (i < 40) { gacc = take_big(alloca(64), s300); gacc += sum40(alloca(32), %s); }' % ', '.join(str(j) for j in range(1, 40))))
